@@ -44,9 +44,7 @@ def check_instance(inst, F, ctx, extra):
             bad(feature, '`%s` is documented as `const fn` but is not const in this configuration' % it['name'], 'const')
         elif const is True:
             ctx.ok('const', inst)
-        extra_const = extra.setdefault('constness', {}) if extra is not None else {}
-        ctx.constness = getattr(ctx, 'constness', {})
-        ctx.constness.setdefault(feature, set()).add(bool(it['const_fn']))
+        ctx.facts.add(('const', feature, bool(it['const_fn']), shape(inst), str(mode.get(feature))))
     def cst(feature):
         it = fn(feature)
         if it is None:
@@ -136,6 +134,17 @@ def main(tier, seed, t0):
     ctx.programs |= {c['id'] for c in cases}
     if len(cases) < 60:
         ctx.error('ascription witness count %d below floor 60' % len(cases))
+    # const-ness is part of the signature: it must be the same for every shape and mode of a feature
+    by = {}
+    for f in ctx.facts:
+        if f[0] == 'const':
+            by.setdefault(f[1], {}).setdefault(f[2], set()).add((f[3], f[4]))
+    for feature, cs in sorted(by.items()):
+        if len(cs) == 2:
+            ctx.violation('const-uniform', None, feature, '`%s` is a const fn for %s but not for %s: the signature depends on the shape / mode' % (
+                feature, sorted(cs[True])[:4], sorted(cs[False])[:4]), key='C19/const-uniform/%s' % feature, construct=GEN_FILE.get(feature))
+        else:
+            ctx.ok('const-uniform')
     return runner.finish(PROP, tier, seed, 'translation_validation', ctx, t0,
                          coverage_extra={'instances_in_corpus': n, 'cache_hit': st.hit, 'tree': st.tree},
                          nontrivial_rule='distinct (item, mode, gapless/holes, repr) combinations whose signature was compared with the documented one',
